@@ -580,7 +580,45 @@ func genC01(w *bufio.Writer, tier string, rng *rand.Rand) {
 			}
 		}
 	}
-	denseMWU(w, rng, pick(tier, 25, 400), 50, 25)
+	// strongly but not fully separated samples of every size up to the limits (tie-free 50+50, lightly tied 25+25):
+	// the first sample takes the lowest ranks except for a few exchanges near the boundary, so U is small but not 0
+	// and the tail probability is tiny (1e-10 ... 1e-28) - and must still be right to its own size
+	for k := 0; k < pick(tier, 120, 3000); k++ {
+		tied := rng.Intn(3) == 0
+		lim := 50
+		if tied {
+			lim = 25
+		}
+		n1, n2 := 5+rng.Intn(lim-4), 5+rng.Intn(lim-4)
+		if rng.Intn(3) == 0 {
+			n1, n2 = lim-rng.Intn(4), lim-rng.Intn(4)
+		}
+		N := n1 + n2
+		vals := make([]float64, N)
+		for i := range vals {
+			vals[i] = float64(i)
+		}
+		if tied {
+			for q := 0; q < 1+rng.Intn(3); q++ {
+				i := 1 + rng.Intn(N-1)
+				vals[i] = vals[i-1]
+			}
+		}
+		x1 := append([]float64(nil), vals[:n1]...)
+		x2 := append([]float64(nil), vals[n1:]...)
+		depth := []int{4, 4, 10, 16}[rng.Intn(4)]
+		for q := rng.Intn([]int{4, 8, 14}[rng.Intn(3)]); q > 0; q-- {
+			i, j := n1-1-rng.Intn(minI(n1, depth)), rng.Intn(minI(n2, depth))
+			x1[i], x2[j] = x2[j], x1[i]
+		}
+		rng.Shuffle(n1, func(i, j int) { x1[i], x1[j] = x1[j], x1[i] })
+		for _, ai := range rng.Perm(3)[:2] {
+			emit(x1, x2, ai-1)
+		}
+		if rng.Intn(2) == 0 {
+			emit(x2, x1, rng.Intn(3)-1)
+		}
+	}
 	// numbers of distinct pooled values and sample sizes aimed at the numeric constants of the code,
 	// lightly tied, from separated (deep tail) to shuffled
 	for _, n := range dictSizes(rng, 2, 49, pick(tier, 10, 100)) {
@@ -820,6 +858,30 @@ func genC03(w *bufio.Writer, tier string, rng *rand.Rand) {
 		if rng.Intn(2) == 0 {
 			emit(x2, x1, rng.Intn(3)-1, el, 25)
 		}
+	}
+	// very unequal sizes under raised limits (a small sample against hundreds of values), nearly separated
+	for k := 0; k < pick(tier, 16, 300); k++ {
+		n1, n2 := 5+rng.Intn(25), 120+rng.Intn(pick(tier, 100, 300))
+		N := n1 + n2
+		vals := make([]float64, N)
+		for i := range vals {
+			vals[i] = float64(i)
+		}
+		// the small sample sits at the low end of the large one, overlapping it by a few ranks
+		off := rng.Intn(12)
+		var x1, x2 []float64
+		for i := 0; i < N; i++ {
+			if i >= off && len(x1) < n1 && (i-off)%2 == 0 && i < off+2*n1 {
+				x1 = append(x1, vals[i]+0.01)
+			} else {
+				x2 = append(x2, vals[i])
+			}
+		}
+		if rng.Intn(2) == 0 {
+			x1, x2 = x2, x1
+		}
+		emit(x1, x2, rng.Intn(3)-1, 1000000, 25)
+		emit(x1, x2, rng.Intn(3)-1, 400, 25)
 	}
 	for k := 0; k < pick(tier, 24, 500); k++ {
 		n1, n2 := 26+rng.Intn(35), 26+rng.Intn(35)
